@@ -6,6 +6,7 @@ import skgstat
 from skgstat import DirectionalVariogram, binning
 
 from .common import quiet, floatbits, parse_floatbits, frs, parse_nums, parse_ints, all_close, close, gen_coords, gen_values
+from .common import guarded
 
 INFO = dict(
     rule='seeded 2-D point sets (uniform, clustered, lattice) x azimuth in [-180,180] x tolerance in [0,360] x '
@@ -55,7 +56,11 @@ def gen(ctx):
         bw = str(bw)
     return dict(coords=coords.tolist(), values=values.tolist(), azimuth=az, tolerance=tol, bandwidth=bw,
                 directional_model=model, n_lags=int(rng.integers(2, 9)), estimator=str(rng.choice(['matheron', 'dowd'])),
-                bin_func=str(rng.choice(['even', 'uniform'])), kind=kind)
+                bin_func=str(rng.choice(['even', 'uniform'])), kind=kind,
+                # raster / pixel indices: integer lattices also come as (unsigned) integer or float32 arrays
+                coord_dtype=str(rng.choice(['float64', 'uint8', 'uint16', 'int16', 'int64', 'float32']))
+                if kind == 'lattice' else 'float64',
+                then_metric=str(rng.choice(['', '', 'cityblock', 'chebyshev'])))
 
 
 def build(case, **over):
@@ -64,7 +69,8 @@ def build(case, **over):
               bin_func=case['bin_func'])
     kw.update(over)
     with quiet():
-        return DV(np.array(case['coords'], float), np.array(case['values'], float), **kw)
+        return DV(np.array(case['coords'], float).astype(case.get('coord_dtype', 'float64')),
+                  np.array(case['values'], float), **kw)
 
 
 def geometry(coords, az, bw_value):
@@ -86,6 +92,7 @@ def geometry(coords, az, bw_value):
     return np.array(ang), np.array(off)
 
 
+@guarded
 def check_case(ctx, case):
     coords = np.array(case['coords'], float)
     try:
@@ -187,6 +194,43 @@ def check_case(ctx, case):
             ctx.violation('experimental', 'implementation %r, estimator over the selected pairs %r' % (
                 exp.tolist(), [None if v is None else float(v) for v in m]), case)
     ctx.lean.ask(['c01', 'exp', case['estimator'], frs(edges), frs(d[mask]), frs(diffs[mask])], cbe)
+
+    # the same instance after its distance function was changed: the search area is defined by the bandwidth
+    # the instance reports *now*, the lag edges by the selected pairs' distances in the new metric
+    metric = case.get('then_metric')
+    if metric:
+        try:
+            with quiet():
+                V.set_dist_function(metric)
+                edges2 = np.asarray(V.bins, float)
+                mask2 = np.asarray(V._direction_mask(), bool)
+                d2 = np.asarray(V.distance, float)
+                bw2 = float(V.bandwidth)
+                groups2 = np.asarray(V.lag_groups())
+        except ValueError as e:
+            ctx.reject('then-metric-ValueError:' + str(e)[:40])
+            return
+        ctx.count('after_dist_function_change')
+        ang2, off2 = geometry(coords, az, bw2)
+        want2 = ang2 <= tol / 2
+        near2 = np.abs(ang2 - tol / 2) < 1e-7
+        if model == 'triangle':
+            want2 &= off2 <= bw2 / 2
+            near2 |= np.abs(off2 - bw2 / 2) < 1e-9 * max(1.0, bw2)
+        bad2 = np.where((mask2 != want2) & ~near2)[0]
+        if len(bad2):
+            k = int(bad2[0])
+            ctx.violation('mask-after-metric-change', 'after dist_function=%r pair %d: selected=%s, angle %.6f deg '
+                          '(tolerance/2 = %g), offset %.6g, reported bandwidth/2 = %g; %d of %d pairs differ' % (
+                              metric, k, bool(mask2[k]), ang2[k], tol / 2, off2[k], bw2 / 2, len(bad2), len(mask2)), case)
+            return
+        if mask2.any() and not near2.any():
+            ref2, _ = fn(d2[mask2], case['n_lags'], None)
+            if not all_close(edges2, np.asarray(ref2, float), rel=1e-12):
+                ctx.violation('edges-after-metric-change', 'after dist_function=%r the lag edges %r are not those of the '
+                              'selected pairs %r' % (metric, edges2.tolist(), list(ref2)), case)
+            elif np.any(groups2[~mask2] != -1):
+                ctx.violation('groups-after-metric-change', 'a pair outside the search area has a lag class', case)
 
 
 def run(ctx):
